@@ -898,3 +898,8 @@ def finish(ctx):
       ("lagrange:n=4", 4), ("lagrange:n=5", 4), ("lagrange:n=6", 4),
       ("polys_observed", 10000), ("values_observed", 5000)]:
     ctx.need(key, minimum)
+
+
+# extension families (second round of seeded changes), see props/c07_x.py
+from props import c07_x as _x, ext as _ext
+_ext.install(globals(), _x)
